@@ -940,4 +940,65 @@ theorem encRow_is_tiff_spec (colors : Nat) (hc : 1 ≤ colors) (raw : Str) :
   have : min x raw.length = x := by omega
   rw [this, byteAt_take raw x _ (by omega)]
 
+/-! ### the size limit of `filters.CCITTFaxDecode` (`ccittLimit`, fix 6dc2783) -/
+
+theorem ccittKept_length (out : Str) : (ccittKept out).length = min (maxCCITTOutput + 1) out.length := by
+  simp [ccittKept, List.length_take]
+
+theorem ccittKept_of_le (out : Str) (h : out.length ≤ maxCCITTOutput + 1) : ccittKept out = out := by
+  unfold ccittKept
+  exact List.take_of_length_le h
+
+theorem ccittKept_idem (out : Str) : ccittKept (ccittKept out) = ccittKept out :=
+  ccittKept_of_le _ (by rw [ccittKept_length]; omega)
+
+/-- within the limit the reader's bytes are handed on unchanged -/
+theorem ccittLimit_within (out : Str) (h : out.length ≤ maxCCITTOutput) : ccittLimit (some out) = some out := by
+  have hk : ccittKept out = out := ccittKept_of_le out (by omega)
+  simp only [ccittLimit, hk]
+  rw [if_neg (by omega)]
+
+/-- beyond the limit: an error -/
+theorem ccittLimit_beyond (out : Str) (h : out.length > maxCCITTOutput) : ccittLimit (some out) = none := by
+  have hk : (ccittKept out).length = maxCCITTOutput + 1 := by rw [ccittKept_length]; omega
+  simp only [ccittLimit, hk]
+  rw [if_pos (by omega)]
+
+/-- `ccittLimit` without the reader: an answer of more than `maxCCITTOutput` bytes becomes an error,
+every other answer is kept -/
+theorem ccittLimit_eq (r : Option Str) :
+    ccittLimit r = r.bind fun out => if out.length > maxCCITTOutput then none else some out := by
+  cases r with
+  | none => rfl
+  | some out =>
+    by_cases h : out.length > maxCCITTOutput
+    · rw [ccittLimit_beyond out h]; simp [h]
+    · rw [ccittLimit_within out (by omega)]; simp [h]
+
+theorem ccittLimit_some_iff (r : Option Str) (out : Str) :
+    ccittLimit r = some out ↔ r = some out ∧ out.length ≤ maxCCITTOutput := by
+  cases r with
+  | none => simp [ccittLimit]
+  | some o =>
+    by_cases h : o.length > maxCCITTOutput
+    · rw [ccittLimit_beyond o h]
+      constructor
+      · intro h'; exact absurd h' (by simp)
+      · rintro ⟨h1, h2⟩
+        simp only [Option.some.injEq] at h1
+        subst h1; omega
+    · rw [ccittLimit_within o (by omega)]
+      constructor
+      · intro h'
+        simp only [Option.some.injEq] at h'
+        subst h'
+        exact ⟨rfl, by omega⟩
+      · rintro ⟨h1, _⟩; exact h1
+
+/-- the result depends on the reader's answer only through its first `maxCCITTOutput + 1` bytes -/
+theorem ccittLimit_prefix (r : Option Str) : ccittLimit (r.map ccittKept) = ccittLimit r := by
+  cases r with
+  | none => rfl
+  | some out => simp only [Option.map_some, ccittLimit, ccittKept_idem]
+
 end Tabula.Filters
